@@ -15,9 +15,9 @@ for k in 0 1 2 3; do
   git -C $wt checkout -q --detach $(git -C /repo rev-parse HEAD) 2>/dev/null
   for id in $(cat /tmp/wt/ids.part0$k 2>/dev/null); do
     git -C $wt checkout -q -- . ; git -C $wt clean -fdq
-    prop=$(python3 -c "import json;print(json.load(open('$base/$id/meta.json'))['property'])")
+    prop=$(python3 -c "import json;print(json.load(open('$base/$id/meta.json')).get('property','-'))")
     if ! git -C $wt apply $base/$id/patch.diff 2>/dev/null; then echo "$id PATCH-DOES-NOT-APPLY"; continue; fi
-    out=$(/verif/bin/ysgocheck -repo $wt -allprops -noevidence 2>&1 | tail -1)
+    out=$(${BIN:-/verif/bin/ysgocheck} -repo $wt -allprops -noevidence 2>&1 | tail -1)
     python3 - "$id" "$prop" "$out" <<'PY'
 import json,sys
 id,prop,out=sys.argv[1:4]
